@@ -95,6 +95,20 @@ CLAIMED = {
          "h2_init_stream inheritance not modelled; trusted: Coq kernel, extraction, harness glue, python reference",
     technique="Coq proof over executable model + differential correspondence (extracted OCaml vs C harness) + language reference monitor",
     design="5/C14"),
+ "C03": dict(
+    text="Coq theorems over an executable model of the access pipeline (canonical path from C02's parse_target, mod_extforward X-Forwarded-For walk, "
+         "conditional blocks by language semantics, mod_access at both hook points, auth.require prefix lookup, lower-cased physical path, existence / "
+         "path-info split, static-file exclude-extensions): a served file passed mod_access on its own URL path whatever path-info trails it, is not "
+         "excluded nor under an auth rule; the decision is a function of the canonical path; percent-encoding and hex case are invisible after "
+         "urldecode; letter case is invisible to mod_access under force-lowercase; forwarded headers are ignored from untrusted peers and yield the last "
+         "untrusted hop otherwise; tied by differential correspondence against the real lighttpd (5 configurations, respelling chains, trusted/untrusted "
+         "loopback peers) and a marker monitor (protected files' markers must never reach a client not entitled to them)",
+    note="PARTIAL: invariance of the canonical path under every respelling is proved at the decode layer only (burl_normalize composition, HTTP/2 and the "
+         "Forwarded parser are covered by correspondence/monitor, not theorems); 1 known finding (url conditions are case-sensitive under force-lowercase-filenames); "
+         "symlinks, index files, mod_magnet/mod_rewrite interplay not modelled; absolute-form targets monitor-only; trusted: Coq kernel, extraction, "
+         "lib/srv.py (real server over loopback), python monitor",
+    technique="Coq proof over executable model + differential correspondence (extracted OCaml vs real lighttpd over loopback) + marker monitor",
+    design="5/C03"),
  "C16": dict(
     text="Coq theorems over an executable model of mod_auth.c's decision logic (rule lookup, Basic decode incl. li_base64_dec, Digest parameter scanner, "
          "parameter/realm/algorithm/uri/response-format checks, nonce timestamp window and nonce-secret recomputation, response recomputation, "
